@@ -8,7 +8,7 @@ from .graph import tlc_json
 
 
 def artefacts(tier):
-    return tlc_cached("fslookup", "FsLookup", "FsLookup.cfg", workers=4, timeout=900)
+    return tlc_cached("fslookup", "FsLookup", "FsLookup.cfg", workers=4, timeout=900, keep=("REPLAY", "MULTI"))
 
 
 def build_nowat():
@@ -22,18 +22,22 @@ def run_property(prop, tier, report):
     path, stats = artefacts(tier)
     build_harness()
     build_nowat()
-    total = 0
+    total = multi = 0
     for exe, name in ((hbin("fsprobe"), "wat-on"), (hbin("wac-verif-fsnowat"), "wat-off")):
         findings, summary = pipe_gz_to([exe], [path])
         report.add_findings(findings, f"fsprobe-{name}")
         total += summary["rows"]
-    if total != stats["lines"]:
+        multi = summary.get("multi_key_requests", 0)
+    # (single-key rows are split between the two builds, multi-key requests run in both)
+    if total - multi != stats["lines"]:
         raise ToolError(f"fs probes consumed {total} of {stats['lines']} rows")
     samples = []
     with gzip.open(path, "rt") as gz:
         for i, line in enumerate(gz):
-            if i in (10, 700, 1400):
+            if i in (300, 900, 1500) and line.startswith('<<"REPLAY"'):
                 samples.append(tlc_json(line))
+            elif i == 5 and line.startswith('<<"MULTI"'):
+                samples.append(tlc_json(line, "MULTI"))
     cov = report.coverage
     cov["states"] = stats["distinct"]
     cov["transitions"] = max(stats["generated"], 1)
@@ -41,6 +45,9 @@ def run_property(prop, tier, report):
     cov["exhaustive"] = True
     cov["rule"] = ("the whole decision table: 2 name shapes x 4 version shapes x dir/wasm/wat/decoy present or absent x "
                    "override none/file/dangling x both unknown-package modes x both builds of the wat feature = 1536 "
+                   "rows, plus 136 requests of two or three keys of which at least one is missing (both modes, both builds): "
+                   "every key is looked up on its own, a missing one is skipped or fails the request; a WIT directory with a "
+                   "vendored deps/ folder must yield its own package; "
                    "rows; each is materialised as a temporary directory tree and resolved by the real resolver of the "
                    "matching build; outcome class and returned bytes are compared")
     cov["samples"] = samples
